@@ -17,6 +17,11 @@ package server
 //   Tail(keys)      log.Append of one message per key, not committed
 //   Commit          log.SetHighWatermark(newest)
 //   Clean           log.Clean()
+//   Roll            the split check of a cleaner tick (commitlog.VerifC10Roll ->
+//                   checkAndPerformSplit): the active segment is rolled, the new
+//                   active segment stays empty until the next publish
+//   Restart         Server.Stop() and a new server over the same data directory
+//                   (open subscriptions are closed first)
 //   Readonly(b)     apiServer.SetStreamReadonly
 //   Sub(id, req, n) apiServer.SubscribeInternal, then receive until the
 //                   subscription ends or its loop blocks waiting for the HW, or
@@ -91,6 +96,7 @@ type vC10Sub struct {
 type vC10Run struct {
 	t      *testing.T
 	srv    *Server
+	cfg    *Config
 	p      *partition
 	stream string
 	id     int
@@ -289,6 +295,27 @@ func (r *vC10Run) step(step map[string]interface{}) vC10Event {
 			if err := r.p.log.Clean(); err != nil {
 				obs.Err = err.Error()
 			}
+		case "Roll":
+			rolled, err := commitlog.VerifC10Roll(r.p.log)
+			if err != nil {
+				obs.Err = err.Error()
+			}
+			if rolled {
+				obs.St = "rolled"
+			} else {
+				obs.St = "kept"
+			}
+		case "Restart":
+			for id, s := range r.subs {
+				s.sub.Close()
+				s.cancel()
+				delete(r.subs, id)
+			}
+			if err := r.srv.Stop(); err != nil {
+				obs.Err = err.Error()
+			}
+			r.srv = vOneNodeServer(r.t, r.cfg)
+			r.p = vC10WaitLeader(r.t, r.srv, r.stream)
 		case "Readonly":
 			b := vBool(step, "b")
 			args["b"] = b
@@ -413,7 +440,7 @@ func TestVerifSubscribe(t *testing.T) {
 	cfg := vOneNodeConfig(t, "a")
 	cfg.Streams.CleanerInterval = 24 * time.Hour
 	srv := vOneNodeServer(t, cfg)
-	defer srv.Stop()
+	defer func() { srv.Stop() }()
 
 	// size of one stored message (all messages of all behaviours have the same
 	// size: fixed-width stream names, one-byte keys and values)
@@ -450,12 +477,13 @@ func TestVerifSubscribe(t *testing.T) {
 		if _, err := srv.api.CreateStream(context.Background(), req); err != nil {
 			t.Fatalf("INCONCLUSIVE: create stream: %v", err)
 		}
-		run := &vC10Run{t: t, srv: srv, stream: stream, id: b.ID, subs: map[string]*vC10Sub{}, grace: grace,
+		run := &vC10Run{t: t, srv: srv, cfg: cfg, stream: stream, id: b.ID, subs: map[string]*vC10Sub{}, grace: grace,
 			p: vC10WaitLeader(t, srv, stream)}
 		tw.Emit(vC10Event{T: b.ID, A: "Open", Args: map[string]interface{}{"id": "", "req": map[string]interface{}{}, "n": -1},
 			St: run.state(), Obs: vC10Obs{A: "Open", Got: []vC10Rec{}}})
 		for _, step := range b.Steps {
 			tw.Emit(run.step(step))
+			srv = run.srv // (a Restart step replaces the server)
 		}
 		for _, s := range run.subs {
 			s.sub.Close()
